@@ -3,7 +3,7 @@
 Require Extraction.
 Require Import ExtrOcamlBasic.
 From Coq Require Import NArith ZArith List.
-From VT Require Import Gen.Constants Base.Outcome Model.Cache Model.BBox Model.Pipeline Model.Stream Model.FileIO.
+From VT Require Import Gen.Constants Base.Outcome Model.Cache Model.BBox Model.Pipeline Model.Stream Model.FileIO Model.Recompress Model.Http Model.StaticPath.
 Extraction Blacklist String List Nat Int Char.
 Set Extraction KeepSingleton.
 Extraction "../ocaml/model.ml"
@@ -14,6 +14,8 @@ Extraction "../ocaml/model.ml"
   Pipeline.denote Pipeline.look Pipeline.strm Pipeline.cov
   Stream.accepts Stream.chunks
   Constants.file_read_variant FileIO.read_range_prog
+  Constants.tile_path_variant Constants.static_guard_variant Http.status StaticPath.served StaticPath.components StaticPath.names StaticPath.request_url
+  Recompress.recompressor Recompress.optimize Recompress.compress Recompress.framed Recompress.process
   Cache.run Cache.empty
   BBox.new BBox.new_full BBox.new_empty BBox.is_empty BBox.width BBox.height BBox.count_tiles BBox.contains2 BBox.contains3
   BBox.set_empty BBox.include_coord BBox.add_border BBox.include_bbox BBox.intersect_bbox BBox.overlaps_bbox
